@@ -171,8 +171,9 @@ class Fn:
 
 
 class Crate:
-    def __init__(self, name, path):
+    def __init__(self, name, path, aliases=None):
         self.name = name
+        self.aliases = aliases or {}
         self.fns = {}
         self.adts = {}
         self.impls = []
@@ -186,6 +187,15 @@ class Crate:
             def sub(r, line):
                 return rlt.sub('', rx0.sub(r, line))
         rx = _Rx
+        if self.aliases:
+            arx = re.compile(r'(?<![A-Za-z0-9_])(?<!::)(' + '|'.join(re.escape(k) for k in sorted(self.aliases, key=len, reverse=True)) + r')(?![A-Za-z0-9_])')
+            amap = self.aliases
+
+            class _Rx2:
+                @staticmethod
+                def sub(r, line):
+                    return arx.sub(lambda m_: amap[m_.group(1)], _Rx.sub(r, line))
+            rx = _Rx2
         with open(path) as fh:
             head = json.loads(rx.sub(rep, fh.readline()))
             for a in head['adts']:
@@ -205,7 +215,7 @@ _loaded = {}
 def load(fdir, crate):
     key = (fdir, crate)
     if key not in _loaded:
-        cr = Crate(crate, os.path.join(fdir, crate + '.jsonl'))
+        cr = Crate(crate, os.path.join(fdir, crate + '.jsonl'), aliases=rename_map(fdir))
         apply_inlining(cr)
         _loaded[key] = cr
     return _loaded[key]
@@ -220,13 +230,17 @@ def load(fdir, crate):
 
 INVENTORY = os.path.join(VERIF, 'rules', 'inventory.json')
 _inventory = None
+_inv_sigs = {}
 
 
 def inventory():
     global _inventory
     if _inventory is None:
         try:
-            _inventory = {k: set(v) for k, v in json.load(open(INVENTORY)).items()}
+            raw = json.load(open(INVENTORY))
+            _inventory = {k: (set(v) if isinstance(v, list) else set(v.keys())) for k, v in raw.items()}
+            _inv_sigs.clear()
+            _inv_sigs.update({k: v for k, v in raw.items() if isinstance(v, dict)})
         except (OSError, ValueError):
             _inventory = {}
     return _inventory
@@ -348,10 +362,66 @@ def apply_inlining(crate):
         crate.fns.pop(h, None)
 
 
+def _fn_sig(f):
+    """[signature hash, number of blocks, sorted 16-bit hashes of the callee names] — enough to recognise a renamed function"""
+    import zlib
+    sig = zlib.crc32('|'.join(f.locals[:f.argc + 1]).encode()) & 0xffffffff
+    cs = sorted({zlib.crc32(b['t'][2].encode()) & 0xffff for b in f.bbs if b['t'][0] == 'call' and not b['cleanup']})
+    return [sig, len(f.bbs), cs]
+
+
 def write_inventory(fdir):
     inv = {}
     for c in LIB_CRATES:
         cr = Crate(c, os.path.join(fdir, c + '.jsonl'))
-        inv[c] = sorted(cr.fns.keys())
-    json.dump(inv, open(INVENTORY, 'w'))
+        inv[c] = {n: _fn_sig(f) for n, f in sorted(cr.fns.items())}
+    json.dump(inv, open(INVENTORY, 'w'), separators=(',', ':'))
     return sum(len(v) for v in inv.values())
+
+
+# ----------------------------------------------------------------------------------------------------------------
+# Renamed / moved functions.  An inventory function that is gone while a function that is not in the inventory has the same
+# signature and (nearly) the same callees was renamed or moved: the facts are loaded with the new path spelled as the old one,
+# so that the rules, which name functions by the paths of the development tree, keep seeing it.
+
+_aliases = {}
+
+
+def rename_map(fdir):
+    if fdir in _aliases:
+        return _aliases[fdir]
+    inventory()
+    amap = {}
+    for c in LIB_CRATES:
+        sigs = _inv_sigs.get(c)
+        path = os.path.join(fdir, c + '.jsonl')
+        if not sigs or not os.path.exists(path):
+            continue
+        cr = Crate(c, path)
+        cur = {n: f for n, f in cr.fns.items() if '{closure' not in n}
+        gone = [n for n in sigs if '{closure' not in n and n not in cur and not n.startswith('<')]
+        new = {n: _fn_sig(f) for n, f in cur.items() if n not in sigs and not n.startswith('<')}
+        if not gone or not new:
+            continue
+        taken = set()
+        for m in sorted(gone):
+            ms = sigs[m]
+            best, best_sim, second = None, 0.0, 0.0
+            for n, ns in new.items():
+                if n in taken or ns[0] != ms[0]:
+                    continue
+                a, b = set(ms[2]), set(ns[2])
+                sim = (len(a & b) / float(len(a | b))) if (a | b) else (1.0 if abs(ms[1] - ns[1]) <= 2 else 0.0)
+                # same last path segment (moved) or same parent (renamed) is extra evidence
+                if n.rsplit('::', 1)[-1] == m.rsplit('::', 1)[-1] or n.rsplit('::', 1)[0] == m.rsplit('::', 1)[0]:
+                    sim += 0.15
+                if sim > best_sim:
+                    best, best_sim, second = n, sim, best_sim
+                elif sim > second:
+                    second = sim
+            if best is not None and best_sim >= 0.65 and best_sim - second >= 0.1:
+                amap[best] = m
+                taken.add(best)
+    _aliases[fdir] = amap
+    return amap
+
